@@ -3,6 +3,7 @@ import Rivaas.Lemmas.BindAllSound
 import Rivaas.Lemmas.BindAllMulti
 import Rivaas.Spec.BindAll
 import Rivaas.Spec.BindNestJSON
+import Rivaas.Model.BindAllNestJSON
 import Rivaas.Props.C04
 import Rivaas.Props.C04Body
 /-
@@ -865,5 +866,37 @@ theorem bindStepsAll_errors_meet_spec (P : Params) (hP : FloatSane P) (cfg : Cfg
               rcases hrun.2 r hr' with h | ⟨e, he, hx⟩
               · exact Or.inl h
               · exact Or.inr ⟨e, List.mem_append.2 (Or.inr he), hx⟩
+
+/-! ## the nested-struct JSON shortcut in a collecting bind -/
+
+theorem bindAllJ_eq_bindAll (P : Params) (cfg : Cfg) (tag : Tag) (ty : Ty) (init : Val) (src : Src)
+    (h : ∀ s, (P s).nj = none) : bindAllJ P cfg tag ty init src = bindAll P cfg tag ty init src := by
+  unfold bindAllJ bindAll
+  cases ty with
+  | struct fs => rw [lemma_bindAtAllJ_eq P cfg tag h]
+  | _ => rfl
+
+theorem specAllJ_eq_specAll (P : Params) (cfg : Cfg) (tag : Tag) (fs : List Fld) (init : Val) (s : Src) (o : Spec.ObsAll)
+    (h : ∀ x, (P x).nj = none) : Spec.specAllJ P cfg tag fs init s o = Spec.specAll P cfg tag fs init s o := by
+  have hall : (Spec.shortcuts P tag fs s).all Option.isNone = true := by
+    simp only [Spec.shortcuts, List.all_map, List.all_eq_true]
+    intro f _
+    simp only [Function.comp, Spec.shortcutAt, h]
+    split
+    · rfl
+    · split
+      · rfl
+      · split
+        · rfl
+        · split <;> simp
+  simp [Spec.specAllJ, hall]
+
+/-- `bindAll_meets_spec` carries over to every collecting case without a shortcut -/
+theorem bindAllJ_meets_spec_no_shortcut (P : Params) (hP : FloatSane P) (cfg : Cfg) (tag : Tag) (fs : List Fld) (ivs : List Val)
+    (src : Src) (hw : wts fs ivs = true) (hg : Spec.inGrammarFs fs = true) (hs : Spec.srcOK src = true)
+    (h : ∀ s, (P s).nj = none) :
+    Spec.specAllJ P cfg tag fs (.struct ivs) src (toObsAll (bindAllJ P cfg tag (.struct fs) (.struct ivs) src)) = true := by
+  rw [bindAllJ_eq_bindAll P cfg tag _ _ _ h, specAllJ_eq_specAll P cfg tag fs _ src _ h]
+  exact bindAll_meets_spec P hP cfg tag fs ivs src hw hg hs
 
 end Rivaas.C04
